@@ -25,6 +25,9 @@ CLAIMED = {
  "C05": ("E1 forward guard-fact dataflow on go/ssa with interprocedural summaries (nil), E2 goal-directed bounds prover, CFG loop classification (G4), call-graph SCCs (G5), csv typestate contract, proto2/extension/regexp lemmas",
          "For every module function reachable from the entry points the property names, every dereference, interface invoke, index/slice expression, integer division, plain type assertion, panic and loop is an obligation that is proved on all paths or fails the check; one invariant-based slice bound is a reviewed exception (listed in the evidence, not covered). This is a sound-by-construction static argument over the module's code modulo the stated library lemmas; it is not a proof about the libraries.",
          "Entry contracts (non-nil options/receivers/hash); proto.Unmarshal guarantees required fields and non-nil repeated elements; HasExtension lemma; library results non-nil when err == nil; encoding/csv equal field counts; finite inputs for the driver loops. Field-based alias model for kills."),
+ "C19": ("exhaustive CFG path enumeration of the directory source's retry loop and listing loop (iterator protocol), dominance checks for the sort, call-chain check of the CLI wiring",
+         "Decides on every path through NewDirectoryGtfsrtSource and Next (fault edges included) that every entry is listed once, names are sorted before use, the stream ends exactly on an empty list, each trip around the loop consumes exactly the front name, read and parse failures continue, and a success returns the parse of exactly that file. Holds for every directory content and fault pattern because the enumeration covers all CFG paths; os/sort/ParseRealtime behaviour itself is trusted (C05 covers ParseRealtime's totality).",
+         "Trusts os.ReadDir/os.ReadFile/sort.Strings/filepath.Join as documented; journal equality over histories is C14/C15's subject."),
 }
 REASON_TODO = "check under construction in this session (static rule set designed in DESIGN.md section 3, not yet implemented); not claimed until it runs clean on the unchanged tree"
 NOT_APPLICABLE = {}
